@@ -58,7 +58,17 @@ func Solve(script, file string, timeoutS int, all bool) Verdict {
 			cmd.Stdout = &out
 			cmd.Stderr = &out
 			cmd.Run()
-			first := strings.TrimSpace(strings.SplitN(out.String(), "\n", 2)[0])
+			first := ""
+			for _, ln := range strings.Split(out.String(), "\n") {
+				ln = strings.TrimSpace(ln)
+				if ln == "sat" || ln == "unsat" || ln == "unknown" || ln == "timeout" {
+					first = ln
+					break
+				}
+			}
+			if first == "" {
+				first = strings.TrimSpace(strings.SplitN(out.String(), "\n", 2)[0])
+			}
 			ch <- res{s.name, first, out.String(), time.Since(t0).Seconds()}
 		}(s)
 	}
